@@ -44,44 +44,59 @@ pub fn run(args: &Args) {
             for pause_ms in [150u64, 0] {
                 part.evaluations += 1;
                 part.distinct_nontrivial += 1;
+                // (a wall-clock limit is not a verdict by itself: a case that runs out of time once is
+                // run again, and only a second time-out in a row is reported)
+                let mut attempt = 0;
+                let (got, want) = loop {
+                    attempt += 1;
                 let (probe, ch) = ChannelProbe::open(131072, 7, 1);
-                let _ = probe.tap();
-                // fill the queue (bound 1)
-                if ch.basic_publish("", Publish::new(b"fill", "k")).is_err() {
+                    let _ = probe.tap();
+                    // fill the queue (bound 1)
+                    if ch.basic_publish("", Publish::new(b"fill", "k")).is_err() {
+                        break ("setup failed".to_string(), String::new());
+                    }
+                    let (tx, rx) = std::sync::mpsc::channel::<Result<(), Error>>();
+                    let op2 = op.to_string();
+                    let t = std::thread::spawn(move || {
+                        let r = match op2.as_str() {
+                            "publish" => ch.basic_publish("", Publish::new(b"blocked", "k")),
+                            "purge-nowait" => ch.queue_purge_nowait("q"),
+                            "purge" => ch.queue_purge("q").map(|_| ()),
+                            _ => ch.listen_for_returns().map(|_| ()),
+                        };
+                        let _ = tx.send(r);
+                        // the channel handle lives on until the verdict is in
+                        std::mem::forget(ch);
+                    });
+                    if pause_ms > 0 {
+                        std::thread::sleep(std::time::Duration::from_millis(pause_ms));
+                    }
+                    let want = match terminal(kind) {
+                        Some(e) => {
+                            let n = name(&e);
+                            probe.preload(Reply::Err(e));
+                            n
+                        }
+                        None => "EventLoopDropped".to_string(),
+                    };
+                    drop(probe);
+                    let got = match rx.recv_timeout(std::time::Duration::from_secs(20)) {
+                        Ok(Ok(())) => "Ok".to_string(),
+                        Ok(Err(e)) => name(&e),
+                        Err(_) => "no result within 20 s".to_string(),
+                    };
+                    if got != "no result within 20 s" {
+                        let _ = t.join();
+                    } else if attempt < 2 {
+                        part.outcome("timed-out-once");
+                        continue;
+                    }
+                    break (got, want);
+                };
+                if got == "setup failed" {
                     part.violation("handover:setup", "the first publish failed".into(), json!({"engine":"seqx","check":"handover"}));
                     continue;
                 }
-                let (tx, rx) = std::sync::mpsc::channel::<Result<(), Error>>();
-                let op2 = op.to_string();
-                let t = std::thread::spawn(move || {
-                    let r = match op2.as_str() {
-                        "publish" => ch.basic_publish("", Publish::new(b"blocked", "k")),
-                        "purge-nowait" => ch.queue_purge_nowait("q"),
-                        "purge" => ch.queue_purge("q").map(|_| ()),
-                        _ => ch.listen_for_returns().map(|_| ()),
-                    };
-                    let _ = tx.send(r);
-                    // the channel handle lives on until the verdict is in
-                    std::mem::forget(ch);
-                });
-                if pause_ms > 0 {
-                    std::thread::sleep(std::time::Duration::from_millis(pause_ms));
-                }
-                let want = match terminal(kind) {
-                    Some(e) => {
-                        let n = name(&e);
-                        probe.preload(Reply::Err(e));
-                        n
-                    }
-                    None => "EventLoopDropped".to_string(),
-                };
-                drop(probe);
-                let got = match rx.recv_timeout(std::time::Duration::from_secs(20)) {
-                    Ok(Ok(())) => "Ok".to_string(),
-                    Ok(Err(e)) => name(&e),
-                    Err(_) => "no result within 20 s".to_string(),
-                };
-                let _ = t.join();
                 part.outcome(&got);
                 if got != want {
                     part.violation(
@@ -114,59 +129,74 @@ pub fn run_resume(args: &Args) {
                 part.evaluations += 1;
                 part.distinct_nontrivial += 1;
                 let replay = json!({"engine":"seqx","check":"handover","op":op,"kind":"resume","bound":bound,"pause_ms":pause_ms});
-                let (probe, ch) = ChannelProbe::open(131072, 7, bound);
-                let _ = probe.tap();
-                let mut setup_ok = true;
-                for i in 0..bound {
-                    setup_ok &= ch.basic_publish("", Publish::new(format!("fill-{}", i).as_bytes(), "k")).is_ok();
-                }
-                if !setup_ok {
-                    part.violation("backpressure:setup", "a publish into a queue with room failed".into(), replay);
-                    continue;
-                }
-                let (tx, rx) = std::sync::mpsc::channel::<Result<String, Error>>();
-                let op2 = op.to_string();
-                let t = std::thread::spawn(move || {
-                    let r = match op2.as_str() {
-                        "publish" => ch.basic_publish("", Publish::new(b"blocked", "k")).map(|_| "()".to_string()),
-                        "purge-nowait" => ch.queue_purge_nowait("q").map(|_| "()".to_string()),
-                        "purge" => ch.queue_purge("q").map(|n| n.to_string()),
-                        _ => ch.listen_for_returns().map(|_| "()".to_string()),
-                    };
-                    let _ = tx.send(r);
-                    std::mem::forget(ch);
-                });
-                if pause_ms > 0 {
-                    std::thread::sleep(std::time::Duration::from_millis(pause_ms));
-                }
-                // the I/O side: take what is queued until the request has arrived (10 s at most)
-                let started = std::time::Instant::now();
-                let mut seen: Vec<TapMsg> = Vec::new();
-                let mut answered = false;
                 let is_request = |m: &TapMsg| match (op, m) {
                     ("publish", TapMsg::Send(b)) => b.windows(7).any(|w| w == b"blocked"),
                     ("purge-nowait", TapMsg::Send(b)) | ("purge", TapMsg::Send(b)) => b.len() > 11 && b[7..11] == [0, 50, 0, 30],
                     ("listen-returns", TapMsg::SetReturnHandler(true)) => true,
                     _ => false,
                 };
-                let mut got: Option<Result<String, Error>> = None;
-                while started.elapsed() < std::time::Duration::from_secs(10) {
-                    seen.extend(probe.tap());
-                    if op == "purge" && !answered && seen.iter().any(|m| is_request(m)) {
-                        probe.preload(Reply::Method(AMQPClass::Queue(queue::AMQPMethod::PurgeOk(queue::PurgeOk { message_count: 42 }))));
-                        answered = true;
+                // (a wall-clock limit is not a verdict by itself: a case that runs out of time once is
+                // run again, and only a second time-out in a row is reported)
+                let mut attempt = 0;
+                let (got_s, seen, got_is_some, t_handle, probe) = loop {
+                    attempt += 1;
+                let (probe, ch) = ChannelProbe::open(131072, 7, bound);
+                    let _ = probe.tap();
+                    let mut setup_ok = true;
+                    for i in 0..bound {
+                        setup_ok &= ch.basic_publish("", Publish::new(format!("fill-{}", i).as_bytes(), "k")).is_ok();
                     }
-                    if let Ok(r) = rx.recv_timeout(std::time::Duration::from_millis(5)) {
-                        got = Some(r);
+                    if !setup_ok {
+                        break ("setup failed".to_string(), Vec::new(), true, None, probe);
+                    }
+                    let (tx, rx) = std::sync::mpsc::channel::<Result<String, Error>>();
+                    let op2 = op.to_string();
+                    let t = std::thread::spawn(move || {
+                        let r = match op2.as_str() {
+                            "publish" => ch.basic_publish("", Publish::new(b"blocked", "k")).map(|_| "()".to_string()),
+                            "purge-nowait" => ch.queue_purge_nowait("q").map(|_| "()".to_string()),
+                            "purge" => ch.queue_purge("q").map(|n| n.to_string()),
+                            _ => ch.listen_for_returns().map(|_| "()".to_string()),
+                        };
+                        let _ = tx.send(r);
+                        std::mem::forget(ch);
+                    });
+                    if pause_ms > 0 {
+                        std::thread::sleep(std::time::Duration::from_millis(pause_ms));
+                    }
+                    // the I/O side: take what is queued until the request has arrived (10 s at most)
+                    let started = std::time::Instant::now();
+                    let mut seen: Vec<TapMsg> = Vec::new();
+                    let mut answered = false;
+                    let mut got: Option<Result<String, Error>> = None;
+                    while started.elapsed() < std::time::Duration::from_secs(10) {
                         seen.extend(probe.tap());
-                        break;
+                        if op == "purge" && !answered && seen.iter().any(|m| is_request(m)) {
+                            probe.preload(Reply::Method(AMQPClass::Queue(queue::AMQPMethod::PurgeOk(queue::PurgeOk { message_count: 42 }))));
+                            answered = true;
+                        }
+                        if let Ok(r) = rx.recv_timeout(std::time::Duration::from_millis(5)) {
+                            got = Some(r);
+                            seen.extend(probe.tap());
+                            break;
+                        }
                     }
-                }
-                let got_s = match &got {
-                    Some(Ok(s)) => format!("Ok({})", s),
-                    Some(Err(e)) => format!("Err({})", name(e)),
-                    None => "no result within 10 s".to_string(),
+                    let got_s = match &got {
+                        Some(Ok(s)) => format!("Ok({})", s),
+                        Some(Err(e)) => format!("Err({})", name(e)),
+                        None => "no result within 10 s".to_string(),
+                    };
+                    if got.is_none() && attempt < 2 {
+                        part.outcome("timed-out-once");
+                        drop(probe);
+                        continue;
+                    }
+                    break (got_s, seen, got.is_some(), Some(t), probe);
                 };
+                if got_s == "setup failed" {
+                    part.violation("backpressure:setup", "a publish into a queue with room failed".into(), replay);
+                    continue;
+                }
                 let want = if op == "purge" { "Ok(42)" } else { "Ok(())" };
                 let requests = seen.iter().filter(|m| is_request(m)).count();
                 let fills = seen.iter().filter(|m| matches!(m, TapMsg::Send(b) if b.windows(5).any(|w| w == b"fill-"))).count();
@@ -179,7 +209,7 @@ pub fn run_resume(args: &Args) {
                         replay,
                     );
                 }
-                if got.is_some() {
+                if let (true, Some(t)) = (got_is_some, t_handle) {
                     let _ = t.join();
                 }
                 drop(probe);
@@ -197,7 +227,7 @@ pub fn run_resume(args: &Args) {
 pub fn run_tuning(args: &Args) {
     use amiquip::ConnectionTuning;
     let mut part = Part::new("C18", "tuning-builders", "seqx", "exploration", &args.tier);
-    part.rule = "ConnectionTuning::default() followed by every sequence of 1..=4 builder calls (mem_channel_bound, buffered_writes_high_water, buffered_writes_low_water) with values from {0, 1, 16 MiB - 1, 16 MiB, 16 MiB + 1, 20 MiB, usize::MAX}: each field equals the argument of the last call of its builder, or the documented default (16, 16 MiB, 0)".into();
+    part.rule = "ConnectionTuning::default() followed by every sequence of 1..=4 builder calls (mem_channel_bound, buffered_writes_high_water, buffered_writes_low_water) with values from {0, 1, 16 MiB - 1, 16 MiB, 16 MiB + 1, 20 MiB, usize::MAX}: each field equals the argument of the last call of its builder, or the documented default (16, 16 MiB, 0). (An API reading of C18: the tuning its bound is stated in is the one the caller asked for, as the public fields show it.)".into();
     let m = 16usize << 20;
     let vals = [0usize, 1, m - 1, m, m + 1, 20 << 20, usize::MAX];
     let mut calls: Vec<(usize, usize)> = Vec::new();
